@@ -423,6 +423,124 @@ fn replay(beh: &Value, input: &str, cap: usize, ents: &[(String, usize)], fin: &
     verdict
 }
 
+/// Names a listener can be told about besides the grammar's own rules.
+const BUILTIN_NAMES: [&str; 24] = [
+    "ANY", "EOI", "SOI", "NEWLINE", "PEEK", "PEEK_ALL", "POP", "POP_ALL", "DROP", "WHITESPACE", "COMMENT", "ASCII_DIGIT",
+    "ASCII_NONZERO_DIGIT", "ASCII_BIN_DIGIT", "ASCII_OCT_DIGIT", "ASCII_HEX_DIGIT", "ASCII_ALPHA_LOWER", "ASCII_ALPHA_UPPER",
+    "ASCII_ALPHA", "ASCII_ALPHANUMERIC", "ASCII", "LETTER", "NUMBER", "ALPHABETIC",
+];
+
+fn text_of(cps: &Value) -> String {
+    cps.as_array().unwrap().iter().map(|c| char::from_u32(c.as_u64().unwrap() as u32).unwrap()).collect()
+}
+
+/// `vdbg sessions --in FILE --dir DIR`: whole stepping sessions the way the command-line debugger drives them -
+/// grammar and input loaded FROM FILES, a breakpoint on every rule and every built-in name, `run`, then `cont` after
+/// every event until the final one.  FILE is the output of `vh entries-emit`: the events of the session must be the
+/// rule entries a plain listener on the VM was told about for the same text (which Trace_Entries ties to the
+/// semantics), followed by Eof when the parse succeeds and Error when it fails.  No gates: the threads run freely.
+fn sessions(path: &str, dir: &str) -> Value {
+    std::fs::create_dir_all(dir).unwrap();
+    let gpath = format!("{dir}/g.pest");
+    let ipath = format!("{dir}/i.txt");
+    let (mut ncases, mut nevents, mut nskipped) = (0u64, 0u64, 0u64);
+    let mut bad = vec![];
+    let f = std::io::BufReader::new(std::fs::File::open(path).unwrap());
+    for line in f.lines() {
+        let line = line.unwrap();
+        if line.trim().is_empty() {
+            continue;
+        }
+        let rec: Value = serde_json::from_str(&line).unwrap();
+        let text = rec["text"].as_str().unwrap();
+        std::fs::write(&gpath, text).unwrap();
+        let mut ctx = DebuggerContext::default();
+        if let Err(e) = ctx.load_grammar(&gpath) {
+            bad.push(json!({"grammar": text, "problem": format!("load_grammar: {e:?}")}));
+            continue;
+        }
+        for c in rec["cases"].as_array().unwrap() {
+            let fin_exp = match c["k"].as_str() {
+                Some("ok") => "Eof",
+                Some("fail") => "Error",
+                _ => {
+                    nskipped += 1;
+                    continue;
+                }
+            };
+            let input = text_of(&c["inp"]);
+            std::fs::write(&ipath, &input).unwrap();
+            let exp: Vec<(String, usize)> =
+                c["entries"].as_array().unwrap().iter().map(|e| (e["r"].as_str().unwrap().to_string(), e["p"].as_u64().unwrap() as usize)).collect();
+            let start = c["start"].as_str().unwrap();
+            let mut problem = String::new();
+            if let Err(e) = ctx.load_input(&ipath) {
+                problem = format!("load_input: {e:?}");
+            }
+            ctx.delete_all_breakpoints();
+            let _ = ctx.add_all_rules_breakpoints();
+            for b in BUILTIN_NAMES {
+                ctx.add_breakpoint(b.to_string());
+            }
+            for (r, _) in &exp {
+                ctx.add_breakpoint(r.clone());
+            }
+            let (tx, rx) = sync_channel(1);
+            let mut got: Vec<(String, usize)> = vec![];
+            let mut fin = "none".to_string();
+            if problem.is_empty() {
+                match ctx.run(start, tx) {
+                    Err(e) => problem = format!("run: {e:?}"),
+                    Ok(()) => loop {
+                        match rx.recv_timeout(Duration::from_secs(10)) {
+                            Ok(DebuggerEvent::Breakpoint(r, p)) => {
+                                got.push((r, p));
+                                if got.len() > exp.len() + 50 {
+                                    fin = "Runaway".into();
+                                    break;
+                                }
+                                if let Err(e) = ctx.cont() {
+                                    problem = format!("cont: {e:?}");
+                                    break;
+                                }
+                            }
+                            Ok(DebuggerEvent::Eof) => {
+                                fin = "Eof".into();
+                                break;
+                            }
+                            Ok(DebuggerEvent::Error(_)) => {
+                                fin = "Error".into();
+                                break;
+                            }
+                            Err(_) => {
+                                fin = "Timeout".into();
+                                break;
+                            }
+                        }
+                    },
+                }
+            }
+            ncases += 1;
+            nevents += got.len() as u64;
+            if !problem.is_empty() || got != exp || fin != fin_exp {
+                if bad.len() < 40 {
+                    bad.push(json!({"grammar": text, "start": start, "inp": c["inp"], "problem": problem,
+                                    "expected_events": exp.iter().map(|(r, p)| json!([r, p])).collect::<Vec<_>>(), "expected_final": fin_exp,
+                                    "observed_events": got.iter().map(|(r, p)| json!([r, p])).collect::<Vec<_>>(), "observed_final": fin}));
+                }
+                if fin == "Timeout" || fin == "Runaway" || !problem.is_empty() {
+                    // the session may have left a thread behind: go on with a fresh context
+                    std::mem::forget(std::mem::take(&mut ctx));
+                    if ctx.load_grammar(&gpath).is_err() {
+                        break;
+                    }
+                }
+            }
+        }
+    }
+    json!({"cases": ncases, "events": nevents, "skipped": nskipped, "mismatch_count": bad.len(), "mismatches": bad})
+}
+
 fn arg(args: &[String], k: &str) -> Option<String> {
     args.iter().position(|a| a == k).and_then(|i| args.get(i + 1).cloned())
 }
@@ -436,6 +554,9 @@ fn main() {
             println!("{}", json!({"entries": e.iter().map(|x| x.0.clone()).collect::<Vec<_>>(),
                                   "positions": e.iter().map(|x| x.1).collect::<Vec<_>>(), "final": fin, "grammar": grammar(), "input": input,
                                   "rules": pest_meta::parse_and_optimize(grammar()).map(|(_, r)| r.iter().map(|x| x.name.clone()).collect::<Vec<_>>()).unwrap_or_default()}));
+        }
+        Some("sessions") => {
+            println!("{}", sessions(&arg(&args, "--in").unwrap(), &arg(&args, "--dir").unwrap()));
         }
         Some("replay-one") => {
             // one behaviour per process: parser threads of abandoned runs stay parked for ever and must not
